@@ -133,7 +133,21 @@ def sort_of(t):
         return seq_sort(sort_of(t[1]))
     if t[0] == "set":
         return z3.ArraySort(sort_of(t[1]), z3.BoolSort())
+    if t[0] == "dictv":        # an immutable mapping value (e.g. the shapes of a MultiTensor): (domain, values)
+        return dictv_sort(sort_of(t[1]), sort_of(t[2]))
     raise TypeError(f"type {t} has no value sort (mutable object in a container?)")
+
+
+_dictv_sorts: Dict[str, Any] = {}
+
+
+def dictv_sort(ks, vs):
+    key = f"DictV<{ks},{vs}>"
+    if key not in _dictv_sorts:
+        d = z3.Datatype(key)
+        d.declare("mk", ("dom", z3.ArraySort(ks, z3.BoolSort())), ("val", z3.ArraySort(ks, vs)))
+        _dictv_sorts[key] = d.create()
+    return _dictv_sorts[key]
 
 
 _dflt: Dict[str, Any] = {}
@@ -460,6 +474,9 @@ def wrap(ty, term) -> SV:
         return unpack_seq(ty[1], term)
     if isinstance(ty, tuple) and ty[0] == "set":
         return SSetV(ty[1], term)
+    if isinstance(ty, tuple) and ty[0] == "dictv":
+        D = dictv_sort(sort_of(ty[1]), sort_of(ty[2]))
+        return SDictV(ty[1], ty[2], D.dom(term), D.val(term))
     return SPrim(ty, term)
 
 
@@ -468,6 +485,7 @@ def term_of(v: SV):
     if isinstance(v, SPrim): return v.t
     if isinstance(v, SSeq): return v.packed()
     if isinstance(v, SSetV): return v.mem
+    if isinstance(v, SDictV): return dictv_sort(sort_of(v.kty), sort_of(v.vty)).mk(v.dom, v.val)
     if isinstance(v, SNone): return Id.NoneId
     if isinstance(v, STuple) and v.pk is not None: return v.pk
     if isinstance(v, STuple) and isinstance(v.ty, tuple):
